@@ -421,7 +421,7 @@ func runC16(t *testing.T, c Case) (res Result) {
 						if op.A[2] == 0 {
 							cancel()
 						} else {
-							ctx, cancel = context.WithTimeout(context.Background(), time.Duration(op.A[2])*time.Millisecond)
+							ctx, cancel = simTimeoutCtx(context.Background(), time.Duration(op.A[2])*time.Millisecond)
 						}
 						e.call = simrt.EventSeq()
 						rid = simrt.GoID(func() {
